@@ -47,6 +47,15 @@ def run(tier, seed):
                              'kind': 'bounded (exhaustive small group: all orders, repeats, None)', 'counted_as_proved': False})
         for w in bad3[:1]:
             pack.violation(lname, {'bounded': True, 'inputs': w, 'native_cmd': 'contracts/bounded_group_lookup.py'})
+    from contracts import bounded_permutation as BPM
+    pname = 'C10/andes/system.py:System.setup/bounded:results-do-not-depend-on-the-order-in-which-devices-are-listed'
+    r = native_guard(pack, pname, lambda: BPM.run(seed))
+    if r is not None:
+        np_, badp = r
+        pack.bounded.append({'function': 'load / setup / PFlow.run / TDS.run on stock cases with the rows of every sheet shuffled (end to end)', 'cases': np_,
+                             'kind': 'bounded native: %s, two seeded shuffles each, compared by variable name' % ', '.join(BPM.CASES), 'counted_as_proved': False})
+        if badp:
+            pack.violation(pname, {'bounded': True, 'inputs': badp, 'native_cmd': 'contracts/bounded_permutation.py'})
     gname = 'C10/andes/core/param.py:ExtParam.link_external/bounded:borrowed-parameter-of-an-interleaved-two-model-group-follows-the-index-field'
     r = native_guard(pack, gname, A.replay_extparam_group)
     if r is not None:
